@@ -76,8 +76,23 @@ def showObs : Obs → String
 
 def splitOnChar (s : String) (c : Char) : List String := s.splitOn (String.singleton c)
 
+def hexVal (c : Char) : Option Nat :=
+  if '0' ≤ c ∧ c ≤ '9' then some (c.toNat - '0'.toNat)
+  else if 'a' ≤ c ∧ c ≤ 'f' then some (c.toNat - 'a'.toNat + 10)
+  else none
+
+def parseHex (s : String) : Option Nat :=
+  if s.isEmpty then none else s.toList.foldl (fun acc c => do some ((← acc) * 16 + (← hexVal c))) (some 0)
+
+/-- `f<k>`: the model prints decimal counters, the implementation hex random ids; both are opaque
+names of a fresh span (the comparison renames them by first appearance). -/
 def parseSpan (s : String) : Option Span :=
-  if s.startsWith "f" then (s.drop 1).toNat?.map .fresh else s.toNat?.map .given
+  if s.startsWith "f" then
+    let r := (s.drop 1).toString
+    match r.toNat? with
+    | some k => some (.fresh k)
+    | none => (parseHex r).map .fresh
+  else s.toNat?.map .given
 
 def parseTrace (s : String) : Option Trace :=
   match splitOnChar s '/' with
